@@ -775,6 +775,10 @@ func (joined Joined) Reverse(length int) Location {
 	for l, r := 0, len(ll)-1; l < r; l, r = l+1, r-1 {
 		ll[l], ll[r] = joined[r].Reverse(length), joined[l].Reverse(length)
 	}
+	if n := len(ll); n%2 == 1 {
+		// The middle element of an odd-length list is not visited above.
+		ll[n/2] = joined[n/2].Reverse(length)
+	}
 	return Join(ll...)
 }
 
@@ -897,6 +901,10 @@ func (ordered Ordered) Reverse(length int) Location {
 	ll := make([]Location, len(ordered))
 	for l, r := 0, len(ll)-1; l < r; l, r = l+1, r-1 {
 		ll[l], ll[r] = ordered[r].Reverse(length), ordered[l].Reverse(length)
+	}
+	if n := len(ll); n%2 == 1 {
+		// The middle element of an odd-length list is not visited above.
+		ll[n/2] = ordered[n/2].Reverse(length)
 	}
 	return Order(ll...)
 }
